@@ -28,7 +28,7 @@ type StaticDecl struct {
 
 func parseStaticDecl(kind, rest string) (*StaticDecl, error) {
 	sep := "="
-	if kind == "callsonly" || kind == "mapwritesonly" || kind == "fieldwritesonly" {
+	if kind == "callsonly" || kind == "mapwritesonly" || kind == "mapdeletesonly" || kind == "fieldwritesonly" {
 		sep = ":"
 	}
 	i := strings.Index(rest, sep)
@@ -117,8 +117,9 @@ func (p *Prog) StaticObligations(prop string) []*Obligation {
 			if writesElsewhere > 0 {
 				ok = false
 			}
-		case "mapwritesonly":
+		case "mapwritesonly", "mapdeletesonly":
 			// Subject "Type.field": functions that update or delete entries of that map field
+			// (mapdeletesonly: functions that delete or clear entries, or replace the whole map)
 			parts := strings.SplitN(d.Subject, ".", 2)
 			if len(parts) != 2 {
 				ok = false
@@ -145,8 +146,18 @@ func (p *Prog) StaticObligations(prop string) []*Obligation {
 					for _, in := range b.Instrs {
 						switch x := in.(type) {
 						case *ssa.MapUpdate:
-							if isField(x.Map) {
+							if isField(x.Map) && d.Kind == "mapwritesonly" {
 								seenF[FuncName(f)] = true
+							}
+						case *ssa.Store:
+							// the field itself is overwritten (a new, empty map): every entry is dropped
+							if d.Kind == "mapdeletesonly" {
+								if fa, isFA := x.Addr.(*ssa.FieldAddr); isFA {
+									t, st := structOf(fa.X.Type())
+									if st != nil && typeBase(t) == parts[0] && st.Field(fa.Field).Name() == parts[1] {
+										seenF[FuncName(f)] = true
+									}
+								}
 							}
 						case *ssa.Call:
 							if bi, isB := x.Call.Value.(*ssa.Builtin); isB && (bi.Name() == "delete" || bi.Name() == "clear") && len(x.Call.Args) > 0 && isField(x.Call.Args[0]) {
